@@ -257,6 +257,28 @@ pub fn dispatch(op: &str, a: &[Arg]) -> Option<String> {
                 if strip(&x) == strip(&y) { format!("[SAME {}]", strip(&x)) } else { format!("[DIFF {} {}]", x, y) }
             }
         }
+        // rawlist x<data>: every entry through by_index_raw: accessors + undecoded bytes
+        "rawlist" => {
+            let mut ar = match ZipArchive::new(Cursor::new(a[0].b().to_vec())) {
+                Ok(ar) => ar,
+                Err(e) => return Some(format!("[OpenErr {}]", err_obs(&e))),
+            };
+            let mut outs = vec![];
+            for i in 0..ar.len() {
+                outs.push(match ar.by_index_raw(i) {
+                    Err(e) => format!("[Err {}]", err_obs(&e)),
+                    Ok(mut f) => {
+                        let m = meta_obs(&f);
+                        let mut v = vec![];
+                        match f.read_to_end(&mut v) {
+                            Ok(_) => format!("[Ok {} {}]", m, ob(&v)),
+                            Err(e) => format!("[Ok {} [ReadErr {}]]", m, io_obs(&e)),
+                        }
+                    }
+                });
+            }
+            format!("[Ok {} {}]", ob(ar.comment()), ol(&outs))
+        }
         "open" => match ZipArchive::new(Cursor::new(a[0].b().to_vec())) {
             Ok(ar) => {
                 let mut names: Vec<Vec<u8>> = ar.file_names().map(|s| s.as_bytes().to_vec()).collect();
